@@ -13,7 +13,7 @@ from valida.data import Data
 warnings.simplefilter("ignore")
 
 DATUM = {"DTYPE": "dtype", "LENGTH": "length", "MAP_KEYS": "map_keys", "MAP_VALUES": "map_values"}
-MULTI = {"FIRST": "first", "LAST": "last", "SINGLE": "single", "ALL": "all"}
+MULTI = {"FIRST": "first", "LAST": "last", "SINGLE": "single", "ALL": "all", "ANY": "any"}
 
 
 def enc_result(v):
@@ -181,8 +181,8 @@ def make_case(parts, doc, datum="NONE", multi="NONE", order="dm", label=""):
             if len(seq_) > 1:
                 return "ValueError"
             return seq_[0]
-        if multi == "ALL":
-            return list(seq_)
+        if multi in ("ALL", "ANY"):
+            return list(seq_)        # (ANY is treated like ALL by the code: "TODO: how to implement")
         return seq_[0] if base.is_concrete else list(seq_)
     want_p = present(pairs)
     want_v = present(vals)
@@ -368,6 +368,8 @@ def generate(rng, n, tier, modifiers=False):
             cases.append(make_case(parts, doc))
     if not modifiers:
         cases.extend(edge_cases(g, max(30, n // 12)))
+        from props import corners
+        cases.extend(corners.get_cases())
     maxlen = 4 if tier == "quick" else 6
     while len(cases) < n:
         k = rng.choice([0, 1, 1, 2, 2, 2, 3, 3] + list(range(4, maxlen + 1)))
@@ -376,7 +378,7 @@ def generate(rng, n, tier, modifiers=False):
         doc = gen_doc_for_parts(g, parts)
         if modifiers:
             dn = rng.choice(["NONE", "NONE", "DTYPE", "LENGTH", "MAP_KEYS", "MAP_VALUES"])
-            mn = rng.choice(["NONE", "NONE", "FIRST", "LAST", "SINGLE", "ALL"])
+            mn = rng.choice(["NONE", "NONE", "FIRST", "LAST", "SINGLE", "ALL", "ANY"])
             order = rng.choice(["dm", "md"])
             cases.append(make_case(parts, doc, dn, mn, order))
         else:
